@@ -241,6 +241,11 @@ type VOpaque struct {
 
 // pointers
 type PCell struct{ A *ssa.Alloc }
+type PCellField struct { // field of a struct value held in a local cell
+	A     *ssa.Alloc
+	Field int
+}
+type PSliceHdrObj struct{ Obj PObj } // &struct{string; int} reinterpreted through unsafe as *[]byte
 type PElem struct { // element idx (absolute offset) of region Reg in the heap of Ty
 	Reg, Idx *Term
 	Ty       *STy // element type
